@@ -32,7 +32,13 @@ def check(ctx):
     with ctx.clause("1.group-atomicity"):
         u = F.unit(f"{TASK}::run")
         b = ctx.body_with(u, PROC)
-        wt = ctx.one_call(b, "fuel_core_storage::transactional::WriteTransaction::write_transaction")
+        wts = [c for c in b.calls_to("fuel_core_storage::transactional::WriteTransaction::write_transaction") if c.bb in b.live]
+        ctx.expect_sites("1.one-storage-transaction-per-group", wts, exactly=1,
+                         what="storage transactions opened per group (the group's data and its progress marker must be committed together: with two transactions a crash between "
+                              "the commits leaves the data without the marker, or the marker without the data)")
+        if not wts:
+            raise AnchorMissing("db.write_transaction() in the group closure of ImportTask::run")
+        wt = wts[0]
         pr = ctx.one_call(b, PROC)
         up = ctx.one_call(b, UGP)
         cm = [c for c in b.calls_to(*COMMIT) if c.bb in b.live]
